@@ -713,7 +713,7 @@ func coqByteLists(l [][]byte) string {
 	return sb.String()
 }
 
-func modelStream(r *vh.Rng, n int, dir string, sum *vh.Summary) {
+func modelStream(r *vh.Rng, n int, dir string, sum *vh.Summary, ext bool) {
 	hdr := "From Coq Require Import List NArith ZArith.\nFrom Verif Require Import Wire.Item C11.Corr.\nImport ListNotations."
 	cv := vh.NewCases(dir, hdr, "case", "mismatches", 40)
 	syms := []string{"key", "name", "id", "a", "value", "k9"}
@@ -833,6 +833,9 @@ func modelStream(r *vh.Rng, n int, dir string, sum *vh.Summary) {
 			sum.Dist[fmt.Sprintf("model.mode%d", m)]++
 		}
 	}
+	if ext {
+		extStream(sum, cv) // deterministic; its item-level sequences join the model cases
+	}
 	cv.Close()
 }
 
@@ -842,14 +845,15 @@ func main() {
 	cases := flag.String("cases", "/verif/build/c11/cases_c11", "directory for the model case files")
 	nLong := flag.Int("long", 1, "rounds of the long stream (every format x container family x read mode, lowered MaxDepth)")
 	nDeep := flag.Int("deep", 3, "long runs per format with the default MaxDepth and 1100..2500 records")
+	ext := flag.Bool("ext", true, "the deterministic extension-value stream (ext.go)")
 	flag.Parse()
 	r := vh.NewRng(vh.SeedFromEnv())
-	sum := vh.NewSummary("seq: sequences of 1..12 random typed values on ONE Encoder / ONE Decoder, five formats, bytes/io transports on both sides, random encoder option vectors, a random consumer per position (typed, interface{}, Raw, struct lacking fields / short struct-as-array / short array = swallow, Raw and interface{} struct fields); oracles NumBytesRead == prefix sums of the encodings, values, Raw bytes, re-emission, end of stream. model: item-level sequences (cbor, msgpack, simple, binc) with modes naked/raw/skip compared with the Coq sequence model (bytes, extents, NumBytesRead, trees, Raw). long: per format x container family (16..40-entry map, fixmap, 16+ array, 20-field struct, long strings, nested, ext, time) x read mode (struct lacking the field / Raw / mix), 60..250 records under MaxDepth 16..64 and 1100..2500 records under the default MaxDepth on ONE Encoder / ONE Decoder: no error, NumBytesRead prefix sums, fields, Raw bytes, end of stream. distinct_nontrivial = distinct (stream, format, transports, option vector, per-position mode list [+ item kinds], length) tuples of successful evaluations")
+	sum := vh.NewSummary("seq: sequences of 1..12 random typed values on ONE Encoder / ONE Decoder, five formats, bytes/io transports on both sides, random encoder option vectors, a random consumer per position (typed, interface{}, Raw, struct lacking fields / short struct-as-array / short array = swallow, Raw and interface{} struct fields); oracles NumBytesRead == prefix sums of the encodings, values, Raw bytes, re-emission, end of stream. model: item-level sequences (cbor, msgpack, simple, binc) with modes naked/raw/skip compared with the Coq sequence model (bytes, extents, NumBytesRead, trees, Raw). long: per format x container family (16..40-entry map, fixmap, 16+ array, 20-field struct, long strings, nested, ext, time) x read mode (struct lacking the field / Raw / mix), 60..250 records under MaxDepth 16..64 and 1100..2500 records under the default MaxDepth on ONE Encoder / ONE Decoder: no error, NumBytesRead prefix sums, fields, Raw bytes, end of stream. ext (deterministic, seed-independent): an extension value with an unregistered tag (msgpack / simple / binc RawExt payload lengths 0..65536 = every fixext / ext8 / ext16 / ext32 head and length form, several tags; cbor tags of every head width in front of each kind of value) at each position of a 3-value sequence on ONE Encoder / ONE Decoder, neighbours numbers or strings, each consumer (RawExt, *RawExt, interface{}, Raw; as a struct field read typed / as pointer / interface{} / Raw / absent / whole into interface{} / whole as Raw; as slice and map elements read typed, into interface{}, Raw, a shorter array, a struct lacking the key, []RawExt, map[string]RawExt), bytes and four io transports: no error, NumBytesRead prefix sums, tag and payload / tagged value, Raw bytes, neighbours, end of stream; the same items as model cases (IExt / ITag). distinct_nontrivial = distinct (stream, format, transports, option vector, per-position mode list [+ item kinds], length) tuples of successful evaluations")
 	rs := r.Fork()
 	for i := 0; i < *nSeq; i++ {
 		runSeq(rs, vh.Formats[i%len(vh.Formats)], i, sum)
 	}
-	modelStream(r.Fork(), *nModel, *cases, sum)
+	modelStream(r.Fork(), *nModel, *cases, sum, *ext)
 	longStream(r.Fork(), *nLong, *nDeep, sum)
 	sum.Print()
 }
